@@ -10,100 +10,22 @@
 // function-pointer removal; the native replay build runs it as usual.)
 // The chunk payload / serialized default is a symbolic byte vector with an exactly-sized heap allocation, as
 // BinaryIStream::make_decoder / Decoder::readVec produce it.  CODEC selects the codec at compile time (one job per codec).
-#include "verif.h"
-#include <OpenVolumeMesh/IO/PropertyCodecs.hh>
-#include <OpenVolumeMesh/IO/PropertyCodecsT_impl.hh>
-#include <OpenVolumeMesh/IO/detail/Decoder.hh>
-#include <OpenVolumeMesh/IO/detail/exceptions.hh>
-#include <OpenVolumeMesh/Core/Properties/PropertyStorageT.hh>
-#include <OpenVolumeMesh/Core/ResourceManager.hh>
-#include <OpenVolumeMesh/Geometry/VectorT.hh>
-#include <utility>
-using namespace OpenVolumeMesh;
-using namespace OpenVolumeMesh::IO;
-using namespace OpenVolumeMesh::IO::detail;
+// THIS FILE: inputs that are long enough for the decoded elements (what a well-formed file guarantees) -> must be memory-safe.
+// Inputs that are too short (which the reader does not rule out) are in C07_codec_short.cpp (findings F2/F3).
+#include "io_codecs.h"
 
-// BoolPropCodec is defined inside IO/PropertyCodecs.cc; its registration template instantiation
-// PropertyCodecs::register_codec<Codecs::BoolPropCodec> is emitted by that unit and linked from there.
-namespace OpenVolumeMesh::IO::Codecs { struct BoolPropCodec; }
-extern template void OpenVolumeMesh::IO::PropertyCodecs::register_codec<OpenVolumeMesh::IO::Codecs::BoolPropCodec>(std::string const &);
-
-// ---- codec table: X(id, ovmb name, value type, Codec, bytes per element (0 = variable))
-#define P(T) Codecs::SimplePropCodec<Codecs::Primitive<T>>
-#define H(T) Codecs::SimplePropCodec<Codecs::OVMHandle<T>>
-#define A(S, N) Codecs::SimplePropCodec<Codecs::ArrayLike<VectorT<S, N>, N>>
-#define V(S, N) VectorT<S, N>
-#define CODEC_TABLE(X) \
-  X(0, "b", bool, Codecs::BoolPropCodec, 0) \
-  X(1, "u8", uint8_t, P(uint8_t), 1) X(2, "u16", uint16_t, P(uint16_t), 2) X(3, "u32", uint32_t, P(uint32_t), 4) X(4, "u64", uint64_t, P(uint64_t), 8) \
-  X(5, "i8", int8_t, P(int8_t), 1) X(6, "i16", int16_t, P(int16_t), 2) X(7, "i32", int32_t, P(int32_t), 4) X(8, "i64", int64_t, P(int64_t), 8) \
-  X(9, "f", float, P(float), 4) X(10, "d", double, P(double), 8) X(11, "s32", std::string, P(std::string), 0) \
-  X(12, "vh", VH, H(VH), 4) X(13, "eh", EH, H(EH), 4) X(14, "heh", HEH, H(HEH), 4) X(15, "fh", FH, H(FH), 4) X(16, "hfh", HFH, H(HFH), 4) X(17, "ch", CH, H(CH), 4) \
-  X(18, "2d", V(double, 2), A(double, 2), 16) X(19, "3d", V(double, 3), A(double, 3), 24) X(20, "4d", V(double, 4), A(double, 4), 32) \
-  X(21, "2f", V(float, 2), A(float, 2), 8) X(22, "3f", V(float, 3), A(float, 3), 12) X(23, "4f", V(float, 4), A(float, 4), 16) \
-  X(24, "2u32", V(uint32_t, 2), A(uint32_t, 2), 8) X(25, "3u32", V(uint32_t, 3), A(uint32_t, 3), 12) X(26, "4u32", V(uint32_t, 4), A(uint32_t, 4), 16) \
-  X(27, "2i32", V(int32_t, 2), A(int32_t, 2), 8) X(28, "3i32", V(int32_t, 3), A(int32_t, 3), 12) X(29, "4i32", V(int32_t, 4), A(int32_t, 4), 16)
-#ifndef CODEC
-#define CODEC 3
-#endif
-template <int ID> struct CodecSel;
-#define X(id, name, T, C, esz) template <> struct CodecSel<id> { using type = T; using codec = C; static constexpr unsigned ESZ = esz; static const char *ovmb() { return name; } };
-CODEC_TABLE(X)
-#undef X
-using Sel = CodecSel<CODEC>;
-using T = Sel::type;
-static constexpr unsigned ESZ = Sel::ESZ;
-
-template <template <unsigned> class F, unsigned... Is>
-static inline void dispatch_seq(unsigned sel, std::integer_sequence<unsigned, Is...>) { ((sel == Is ? (F<Is>::run(), 0) : 0), ...); }
-static uint8_t g_raw[96];  // the symbolic bytes
-// lengths LO..HI, one literal-constant case per length (selector dispatch), all in one solver query
-#define LEN_HARNESS(name, LO, HI)                                                                                   \
-  static void body_##name(unsigned len);                                                                            \
-  template <unsigned I> struct Case_##name { static __attribute__((noinline)) void run() { body_##name((LO) + I); } }; \
-  extern "C" void harness_##name() {                                                                                \
-    for (unsigned i_ = 0; i_ < (HI); ++i_) g_raw[i_] = v_nondet_u8();                                               \
-    unsigned sel = v_nondet_below((HI) - (LO) + 1);                                                                 \
-    dispatch_seq<Case_##name>(sel, std::make_integer_sequence<unsigned, (HI) - (LO) + 1>{}); }                      \
-  static void body_##name(unsigned len)
-
-enum Outcome { OK = 0, PARSE_ERROR = 1, OTHER = 2 };
-#define RUN(out, stmt) do { out = OK; try { stmt; } catch (const parse_error &) { out = PARSE_ERROR; } catch (...) { out = OTHER; } } while (0)
-
-#ifndef NELEM
-#define NELEM 2      // entity count n of the property (reader: n_verts_read_ etc.)
-#endif
-
-// the only ResourceManager members request_property needs are the entity counts (pure virtual there; TopologyKernel in the reader)
-struct Counts : public ResourceManager {
-  size_t n_vertices() const override { return NELEM; }
-  size_t n_edges() const override { return NELEM; }
-  size_t n_halfedges() const override { return 2 * NELEM; }
-  size_t n_faces() const override { return NELEM; }
-  size_t n_halffaces() const override { return 2 * NELEM; }
-  size_t n_cells() const override { return NELEM; }
-};
-
-static const PropertyDecoderBase *lookup(PropertyCodecs &pc) {
-  pc.register_codec<Sel::codec>(Sel::ovmb());
-  return pc.get_decoder(Sel::ovmb());
-}
-
-static constexpr bool IS_BOOL = (CODEC == 0), IS_STR = (CODEC == 11);
 // bytes that the first element needs before any data-dependent check can happen (string: the u32 length word; bool: one byte)
 static constexpr unsigned MINB = IS_BOOL ? 1 : IS_STR ? 4 : ESZ;
-#ifndef PAY_MAX
-#define PAY_MAX (IS_STR ? 12 : NELEM * ESZ + 1)
-#endif
+// payload lengths: k*ESZ and k*ESZ+1 for k = 1..NELEM (string: 4..7), by selector dispatch
+static constexpr unsigned NPAY = IS_STR ? 4 : 2 * NELEM;
+static constexpr unsigned pay_len(unsigned i) { return IS_STR ? 4 + i : (i / 2 + 1) * ESZ + (i % 2); }
+static constexpr unsigned PAY_MAX = pay_len(NPAY - 1);
 
-// ---------------------------------------------------------------------------------------------------------------
-// deserialize as read_prop_chunk calls it, span {first, count} symbolic within its checks.
-//   deser_sufficient: the payload holds at least count*ESZ bytes (what a well-formed chunk guarantees; string: one element
-//                     and at least its length word) -> must be memory-safe; fixed-size codecs must succeed.
-//   deser_as_called : a non-empty payload that is too short for ONE element (1..MINB-1 bytes; 0 bytes for 1-byte codecs),
-//                     span {0,1} -> C07 demands memory safety and parse_error.
 #if CODEC != 0
-LEN_HARNESS(deser_sufficient, MINB, PAY_MAX) {
+// ---------------------------------------------------------------------------------------------------------------
+// deserialize as read_prop_chunk calls it, span {first, count} symbolic within its checks, payload holds at least
+// count*ESZ bytes (string: one element and at least its length word) -> must be memory-safe; fixed-size codecs must succeed.
+static void deser_sufficient_case(unsigned len) {
   PropertyCodecs pc;
   const PropertyDecoderBase *d = lookup(pc);
   V_ASSERT(d != nullptr);
@@ -118,7 +40,7 @@ LEN_HARNESS(deser_sufficient, MINB, PAY_MAX) {
   RUN(out, d->deserialize(&st, dec, first, first + count));
   V_ASSERT(out != OTHER);
   V_ASSERT(st.size() == NELEM);
-  if (!IS_STR) { V_ASSERT(out == OK); V_ASSERT(dec.pos() == (size_t)count * ESZ); v_witness("deserialize(sufficient payload): accepted"); }
+  if constexpr (!IS_STR) { V_ASSERT(out == OK); V_ASSERT(dec.pos() == (size_t)count * ESZ); v_witness("deserialize(sufficient payload): accepted"); }
   else {
     uint32_t n = (uint32_t)g_raw[0] | ((uint32_t)g_raw[1] << 8) | ((uint32_t)g_raw[2] << 16) | ((uint32_t)g_raw[3] << 24);
     V_ASSERT((out == OK) == (n <= len - 4));
@@ -126,18 +48,11 @@ LEN_HARNESS(deser_sufficient, MINB, PAY_MAX) {
     else v_witness("deserialize(string, length word present): declared length beyond payload -> parse_error");
   }
 }
-LEN_HARNESS(deser_as_called, (MINB > 1 ? 1 : 0), (MINB > 1 ? MINB - 1 : 0)) {
-  PropertyCodecs pc;
-  const PropertyDecoderBase *d = lookup(pc);
-  V_ASSERT(d != nullptr);
-  PropertyStorageT<T> st(nullptr, "p", EntityType::Vertex, T(), true);
-  st.resize(NELEM);
-  std::vector<uint8_t> vec_(g_raw, g_raw + len);
-  Decoder dec(std::move(vec_));
-  int out;
-  RUN(out, d->deserialize(&st, dec, 0, 1));                // span {first 0, count 1}: passes every check of read_prop_chunk
-  (void)out;                                               // C07: must be memory-safe (and refuse); the memory checks are the obligation
-  v_witness("deserialize(short payload): returned");
+template <unsigned I> struct CaseDS { static __attribute__((noinline)) void run() { deser_sufficient_case(pay_len(I)); } };
+extern "C" void harness_deser_sufficient() {
+  for (unsigned i = 0; i < PAY_MAX; ++i) g_raw[i] = v_nondet_u8();
+  unsigned sel = v_nondet_below(NPAY);
+  dispatch_seq<CaseDS>(sel, std::make_integer_sequence<unsigned, NPAY>{});
 }
 #else
 // bool: bit-packed LSB first, ceil(count/8) bytes; BoolPropCodec::decode_n calls need() itself. n = 17 entities.
@@ -174,10 +89,10 @@ extern "C" void harness_deser_bool() {   // shard: count = v_param(1) in 1..17, 
 
 // ---------------------------------------------------------------------------------------------------------------
 // request_property as read_propdir_chunk calls it: the default value is decoded from `serialized_default`.
-//   request_sufficient: MINB .. DEF_MAX bytes  -> memory-safe; success or parse_error (bool: byte not 0/1; string: length beyond buffer)
-//   request_as_called : 0 .. MINB-1 bytes      -> C07 demands memory safety and parse_error
+//   request_sufficient: MINB .. DEF_MAX bytes  -> memory-safe; success (string: or parse_error when the declared length exceeds the buffer)
+#if CODEC != 0   /* request_property for bool is not encodable (CBMC symex diverges), see spec_C07.py */
 #ifndef DEF_MAX
-#define DEF_MAX (MINB + 2 > 8 ? MINB + 2 : 8)
+#define DEF_MAX (MINB + 2)
 #endif
 static int request(unsigned len, std::shared_ptr<PropertyStorageBase> &prop, std::string const &name) {
   PropertyCodecs pc;
@@ -195,26 +110,12 @@ LEN_HARNESS(request_sufficient, MINB, DEF_MAX) {
   std::shared_ptr<PropertyStorageBase> prop; std::string name("p");
   int out = request(len, prop, name);
   V_ASSERT(out != OTHER);
-  if constexpr (IS_BOOL || IS_STR) {
-    if constexpr (IS_BOOL) V_ASSERT((out == OK) == (g_raw[0] <= 1));
-    else { uint32_t n = (uint32_t)g_raw[0] | ((uint32_t)g_raw[1] << 8) | ((uint32_t)g_raw[2] << 16) | ((uint32_t)g_raw[3] << 24); V_ASSERT((out == OK) == (n <= len - 4)); }
+  if constexpr (IS_STR) {
+    uint32_t n = (uint32_t)g_raw[0] | ((uint32_t)g_raw[1] << 8) | ((uint32_t)g_raw[2] << 16) | ((uint32_t)g_raw[3] << 24); V_ASSERT((out == OK) == (n <= len - 4));
     if (out == OK) v_witness("request_property(sufficient default): accepted"); else v_witness("request_property(sufficient default): parse_error");
   } else {
     V_ASSERT(out == OK);
     v_witness("request_property(sufficient default): accepted");
   }
 }
-// too short but not empty: 1..MINB-1 bytes (1-byte codecs: the empty default)
-LEN_HARNESS(request_as_called, (MINB > 1 ? 1 : 0), MINB - 1) {
-  std::shared_ptr<PropertyStorageBase> prop; std::string name("p");
-  int out = request(len, prop, name);
-  (void)out;                                               // C07: must be memory-safe (and refuse); the memory checks are the obligation
-  v_witness("request_property(short default): returned");
-}
-// the empty default (DIRP entry with serialized_default length 0): Decoder over an empty vector, data() == nullptr
-extern "C" void harness_request_empty_default() {
-  std::shared_ptr<PropertyStorageBase> prop; std::string name("p");
-  int out = request(0, prop, name);
-  (void)out;
-  v_witness("request_property(empty default): returned");
-}
+#endif
